@@ -50,7 +50,42 @@ func (f *Frame) doPanic(st *State, call *ast.CallExpr) {
 	f.panicSite(st, "explicit", "false", call.Pos())
 }
 
+// evalCall evaluates a call and keeps the call-count ghost variables (`calls(F)` in contracts): a call
+// whose static callee is named F adds exactly one to calls(F).
 func (f *Frame) evalCall(st *State, call *ast.CallExpr) []Val {
+	var key string
+	var before Val
+	if len(f.c.specs.Tracked) > 0 {
+		if fn, _ := typeutil.Callee(f.info, call).(*types.Func); fn != nil && f.c.specs.Tracked[fn.Name()] {
+			key = callsKey(fn.Name())
+		}
+	}
+	rs := f.evalCall1(st, call, &before, key)
+	if key != "" && before.T != "" {
+		st.gh[key] = Val{T: f.c.define("calls", "Int", fmt.Sprintf("(+ %s 1)", before.T))}
+	}
+	return rs
+}
+
+func callsKey(name string) string { return "calls:" + name }
+
+// havocCalls: a callee that is neither inlined nor pure may itself make calls that are being counted;
+// every counter becomes an arbitrary value not below its current one (the callee's postconditions may
+// then say more).
+func (f *Frame) havocCalls(st *State) {
+	for name := range f.c.specs.Tracked {
+		k := callsKey(name)
+		old, ok := st.gh[k]
+		if !ok {
+			continue
+		}
+		n := f.c.fresh("calls_"+name, "Int")
+		st.gh[k] = Val{T: n}
+		st.assume(fmt.Sprintf("(>= %s %s)", n, old.T))
+	}
+}
+
+func (f *Frame) evalCall1(st *State, call *ast.CallExpr, before *Val, countKey string) []Val {
 	// conversion
 	if tv, ok := f.info.Types[call.Fun]; ok && tv.IsType() {
 		v := f.eval(st, call.Args[0])
@@ -73,6 +108,19 @@ func (f *Frame) evalCall(st *State, call *ast.CallExpr) []Val {
 	if fn == nil {
 		// call of a function value / closure
 		return f.callUnknown(st, call, nil, "call through a function value")
+	}
+	if countKey != "" {
+		// nested calls in the arguments are counted when the arguments are evaluated by the paths below;
+		// argument expressions of counted callees are required to be call-free so that this snapshot is exact
+		ast.Inspect(call, func(n ast.Node) bool {
+			if c, ok := n.(*ast.CallExpr); ok && c != call {
+				if fn2, _ := typeutil.Callee(f.info, c).(*types.Func); fn2 != nil && f.c.specs.Tracked[fn2.Name()] {
+					f.unsupported(call, "counted call nested in the arguments of a counted call")
+				}
+			}
+			return true
+		})
+		*before = st.gh[countKey]
 	}
 	key := funcKey(fn)
 	// receiver
@@ -142,6 +190,9 @@ func (f *Frame) assertAtCall(st *State, call *ast.CallExpr, fn *types.Func, recv
 	env := f.loopSpecEnv(st)
 	for _, ba := range args {
 		if ba.name != "" && ba.name != "_" {
+			if outer, ok := env.names[ba.name]; ok {
+				env.names["caller_"+ba.name] = outer // the caller's own variable of that name stays reachable
+			}
 			env.names[ba.name] = ba.val
 		}
 	}
@@ -266,6 +317,7 @@ func (f *Frame) callUnknown(st *State, call *ast.CallExpr, fn *types.Func, why s
 		why = "no contract"
 	}
 	f.c.note(fmt.Sprintf("havoc: call to %s (%s): results arbitrary, reachable arguments havocked", key, why))
+	f.havocCalls(st)
 	// havoc mutable arguments
 	if recvVal != nil {
 		sel := ast.Unparen(call.Fun).(*ast.SelectorExpr)
@@ -310,6 +362,15 @@ func (f *Frame) havocReachable(st *State, e ast.Expr, v Val, fn *types.Func) {
 	if f.isLvalue(e) {
 		if _, isIfc := v.Ty.Underlying().(*types.Interface); isIfc {
 			return // opaque handle: its state lives in ghost variables, not in the value
+		}
+		if _, isSl := v.Ty.Underlying().(*types.Slice); isSl {
+			// the callee gets a copy of the slice header: the elements may change, the caller's offset,
+			// length and capacity cannot
+			so := f.c.sorts.SortOf(v.Ty)
+			hv := f.havoc(st, "hv", v.Ty)
+			nv := Val{T: fmt.Sprintf("(mk_%s (%s.arr %s) (%s.off %s) (%s.len %s) (%s.cap %s))", so, so, hv.T, so, v.T, so, v.T, so, v.T), Ty: v.Ty}
+			f.assign(st, e, f.name("hv", nv))
+			return
 		}
 		f.assign(st, e, f.havoc(st, "hv", v.Ty))
 	}
@@ -683,6 +744,9 @@ func (f *Frame) callByContract(st *State, call *ast.CallExpr, fn *types.Func, ct
 	pre.gh = map[string]Val{}
 	for gk, gv := range st.gh {
 		pre.gh[gk] = gv
+	}
+	if !ct.Pure {
+		f.havocCalls(st)
 	}
 	k := f.c.counters["call:"+ct.Name]
 	f.c.counters["call:"+ct.Name] = k + 1
